@@ -492,6 +492,8 @@ def run(fx, tier):
     # dominated by  header bytes + Remaining Length <= capacity  (any arrangement of that linear inequality).
     frame_fit(fx, v)
     recovery_after_internal_disconnect(fx, v)
+    handshake_span_rule(fx, v, 'C19')
+    iterator_outlives_move_rule(fx, v, 'C19')
     from c04 import reconnect_discards_buffer_rule
     v.rule('R-DOM', 'bytes buffered from a lost connection are discarded before the next read; exact-count reads of the handshake are not replaced by raw partial reads')
     reconnect_discards_buffer_rule(fx, v, 'C19')
@@ -654,3 +656,80 @@ def recovery_after_internal_disconnect(fx, v, prop='C19'):
     # ... and the readers do stop on an error from it (that is why the above matters): recorded, not required
     if n == 0 and not v.violations:
         raise AnalysisBroken('disconnect_op::on_disconnect: non-terminal try_again edge not found')
+
+
+def handshake_span_rule(fx, v, prop='C19'):
+    """connect_op frames CONNACK/AUTH itself, in a buffer that is reused for every packet of the handshake and only ever
+    grown: the body span handed to the decoders must be anchored at the START of the buffer (after the fixed header) and
+    sized by the Remaining Length.  A span anchored at the buffer END is the tail of an earlier, longer packet."""
+    n = 0
+    for f in fx.functions(cls='connect_op', name='operator()', tag='on_fixed_header'):
+        # is the buffer grow-only?  (a resize that is guarded by a comparison)
+        grow_only = False
+        for b, i, l, c in f.calls():
+            if callee_name(c) == 'resize':
+                if any(comparison(origin(f, cond), pol) and comparison(origin(f, cond), pol)[0] in ('<', '>', '<=', '>=')
+                       for cond, pol, gb in edge_guards(f, b)):
+                    grow_only = True
+        for b, i, l, c in f.calls():
+            if callee_name(c) != 'append' or len(c.get('args', [])) < 4:
+                continue
+            n += 1
+            first_o, last_o = origin(f, c['args'][-2]), origin(f, c['args'][-1])
+            def end_anch(t):
+                # mentions of the buffer end as the RANGE END handed to the length parser do not anchor the span there
+                def walk(x):
+                    if isinstance(x, dict):
+                        if x.get('k') == 'call' and callee_name(x) == 'type_parse':
+                            return False
+                        if x.get('k') in ('modified',):
+                            return walk(x.get('e'))
+                        if x.get('k') == 'call' and callee_name(x) in ('cend', 'end', 'size', 'length'):
+                            return True
+                        return any(walk(v_) for k_, v_ in x.items() if k_ not in ('fn', '_at'))
+                    if isinstance(x, list):
+                        return any(walk(i_) for i_ in x)
+                    return False
+                return walk(t)
+            beg_anch = lambda t: contains(t, lambda m: m.get('k') == 'call' and callee_name(m) in ('cbegin', 'begin', 'data'))
+            uses_len = lambda t: contains(t, lambda m: m.get('k') == 'call' and callee_name(m) == 'type_parse')
+            ok = beg_anch(first_o) and (not grow_only or not end_anch(first_o)) and uses_len(last_o) and (not grow_only or not end_anch(last_o))
+            v.check(ok, 'R-PRE', 'connect_op::operator()(on_fixed_header)%s:body-span [%s]' % (f.inst()[:30], f.tu),
+                    'the body span handed on to the decoders starts after the fixed header at the beginning of the (grow-only: %s) buffer and '
+                    'ends Remaining Length bytes later; it is not measured from the buffer end' % grow_only,
+                    key=prop + ':R-PRE:connect_op:body-span', where='%s:%s' % (f.path_file(), l))
+    if n == 0 and not v.violations:
+        raise AnalysisBroken('connect_op::on_fixed_header: continuation arguments not found')
+
+
+def iterator_outlives_move_rule(fx, v, prop='C19'):
+    """An iterator / pointer into a std::string OBJECT is invalidated when that object is moved (short strings live
+    inside the object).  In any library function: begin()/cbegin()/end()/cend()/data() taken directly from a string local
+    or parameter that the same function also std::move()s elsewhere is a dangling range in the making (the early-reply
+    hand-over keeps its bytes behind a pointer for exactly this reason)."""
+    n_fn = 0
+    for f in fx.fns:
+        if not f.path_file().startswith('boost/mqtt5/') or not f.blocks:
+            continue
+        taken, moved = {}, {}
+        for b, i, l, x in f.elements():
+            x = f.resolve({'k': 'elem', 'b': b, 'i': i})
+            for nd in Expr.walk(x):
+                if nd.get('k') == 'call' and callee_name(nd) in ('begin', 'cbegin', 'end', 'cend', 'data') and callee_cls(nd) == 'basic_string' \
+                        and 'obj' in nd and not nd.get('arrow'):
+                    o = strip(nd['obj'])
+                    if isinstance(o, dict) and o.get('k') == 'ref' and o.get('dk') in ('local', 'param') and o.get('tcls') == 'basic_string':
+                        taken.setdefault(o['d'], (o.get('n'), l))
+                if nd.get('k') == 'move':
+                    o = strip(nd.get('e'))
+                    if isinstance(o, dict) and o.get('k') == 'ref' and o.get('dk') in ('local', 'param'):
+                        moved.setdefault(o['d'], l)
+        if taken:
+            n_fn += 1
+        for d, (nm, l) in taken.items():
+            if d in moved:
+                v.fail('R-BOUNDS', '%s::%s: iterators into `%s` and std::move(%s) [%s]' % (f.cls, f.n, nm, nm, f.tu),
+                       'a range taken from the string object `%s` (line %s) cannot be used after the object is moved (line %s): '
+                       'for short strings the characters move with the object' % (nm, l, moved[d]),
+                       key='%s:R-BOUNDS:%s::%s:iterator-outlives-move' % (prop, f.cls, f.n), where='%s:%s' % (f.path_file(), l))
+    v.ok('R-BOUNDS', 'iterator-outlives-move', '%d functions take a range directly from a string object; none of them also moves that object' % n_fn)
